@@ -466,10 +466,48 @@ func rxRecvResps(qt string, resps []*gpb.SubscribeResponse) string {
 	rxRegister(resps)
 	c := client.New()
 	err := c.Subscribe(context.Background(), rxQuery(qt), gclient.Type)
+	// the same stream once more for an application that KEEPS what its handler is given (a batching consumer):
+	// the index path of a delivered update or delete is that update's own — it does not change when the rest
+	// of the notification is delivered (seeded change c19_seed11: every path of one notification built on the
+	// prefix's slice).  Independent of the model: only ever adds a suffix when something changed.
+	kept := rxRetained(qt, resps)
 	if err != nil {
-		return "err:" + rxLeaves(c)
+		return "err:" + rxLeaves(c) + kept
 	}
-	return "ok:" + rxLeaves(c)
+	return "ok:" + rxLeaves(c) + kept
+}
+
+func rxRetained(qt string, resps []*gpb.SubscribeResponse) (verdict string) {
+	defer func() {
+		if recover() != nil {
+			verdict = "" // a panic on this stream is the CacheClient run's to report
+		}
+	}()
+	rxRegister(resps)
+	var got []client.Notification
+	var then []string
+	render := func(n client.Notification) string {
+		switch v := n.(type) {
+		case client.Update:
+			return "U" + encPath(v.Path)
+		case client.Delete:
+			return "D" + encPath(v.Path)
+		}
+		return "-"
+	}
+	q := rxQuery(qt)
+	q.NotificationHandler = func(n client.Notification) error {
+		got = append(got, n)
+		then = append(then, render(n))
+		return nil
+	}
+	(&client.BaseClient{}).Subscribe(context.Background(), q, gclient.Type)
+	for i, n := range got {
+		if now := render(n); now != then[i] {
+			return " retained-path-changed:" + then[i] + "->" + now
+		}
+	}
+	return ""
 }
 
 // ---------------------------------------------------------------- (4) CLI display
